@@ -684,6 +684,15 @@ class Facts:
                     c = t["callee"]
                     if c in self.fns:
                         cg[name].add(c)
+                    elif not t.get("local", False):
+                        # foreign generic callee instantiated with a local type: it may call any
+                        # trait method implemented for that type (Serialize, Clone, Ord, Default, ...)
+                        for g in t.get("gen", []):
+                            for m in re.finditer(r"([a-z_][\w]*(?:::[\w]+)+)", g):
+                                for im in self._trait_impls_of().get(m.group(1), ()):
+                                    cg[name].add(im)
+                            for m in re.finditer(r"\{closure@", g):
+                                pass
                     for a in t["args"]:
                         self._ops_refs(a, cg[name])
                     # generic args naming closures / fn items
@@ -693,6 +702,22 @@ class Facts:
         # statics: a function that mentions a static whose initializer calls closures
         self._cg = cg
         return cg
+
+    def _trait_impls_of(self):
+        """local ADT path -> names of local trait-impl methods whose Self type is that ADT"""
+        if getattr(self, "_ti", None) is None:
+            ti = defaultdict(set)
+            for n, f in self.fns.items():
+                st = f.j.get("impl_self")
+                if st and f.j.get("impl_trait"):
+                    # index by every local ADT mentioned in the impl header (Self type and trait
+                    # arguments, e.g. `impl From<WireFmt> for (Blocker, Cache)`)
+                    hdr = st + " " + n.split("::{closure")[0]
+                    for m in re.finditer(r"([a-z_][\w]*(?:::[\w]+)+)", hdr):
+                        if m.group(1) in self.adts:
+                            ti[m.group(1)].add(n)
+            self._ti = ti
+        return self._ti
 
     def _ops_refs(self, op, out):
         if isinstance(op, dict) and op.get("k") == "const":
